@@ -114,3 +114,51 @@ def feasible_region(D, path, lp, x):
 
 def cell(df, t, col):
     return df[col].values[t]
+
+
+def internal_step_conflicts(op):
+    """independent evidence for the step an internal (boolean) variable belongs to: a row of the problem that contains exactly one
+    internal variable and dispatch variables of a single step ties that internal variable to this step (capacity x on/off rows,
+    charge/discharge mode rows).  Returns [(variable, step in the mapping, step of the dispatch variables in the row, row)]."""
+    from .shims import to_dense
+    mp = op.mapping
+    if mp is None or not len(mp) or 'type' not in mp.columns:
+        return []
+    first = mp[~mp.index.duplicated(keep='first')]
+    typ = {int(i): t for i, t in zip(first.index, first['type'])}
+    steps = {}
+    for i, t in zip(mp.index, mp['time_step']):
+        steps.setdefault(int(i), set()).add(int(t))
+    A = to_dense(op.A)
+    out = []
+    if A is None or not A.size:
+        return out
+    ct = op.cType or ''
+    for r in range(A.shape[0]):
+        if r < len(ct) and ct[r] == 'N':
+            continue
+        cols = [j for j in range(A.shape[1]) if isinstance(A[r, j], Sym) or A[r, j] != 0]
+        internal = [j for j in cols if typ.get(j) == 'i']
+        disp = [j for j in cols if typ.get(j) == 'd']
+        if len(internal) != 1 or not disp:
+            continue
+        dsteps = set()
+        for j in disp:
+            dsteps |= steps.get(j, set())
+        if len(dsteps) != 1:
+            continue
+        j = internal[0]
+        if steps.get(j) != dsteps:
+            out.append((j, sorted(steps.get(j, [])), sorted(dsteps), r))
+    return out
+
+
+def judge_internal_steps(problem):
+    """replay of internal_step_conflicts on a concrete problem observation (unshimmed code)"""
+    from types import SimpleNamespace
+    mp = pd.DataFrame([{k: v for k, v in m.items() if k != 'index'} for m in problem['mapping']], index=[m['index'] for m in problem['mapping']])
+    ns = SimpleNamespace(mapping=mp, A=np.array(problem['A'], dtype=object) if len(problem['A']) else None, cType=problem['cType'])
+    conf = internal_step_conflicts(ns)
+    if conf:
+        return True, 'internal variable %s is mapped to step %s but switches dispatch variables of step %s (row %s)' % (conf[0][0], conf[0][1], conf[0][2], conf[0][3])
+    return False, 'internal variables are mapped to the steps they act in on the unshimmed code'
